@@ -543,6 +543,48 @@ def rebuilt_networks(M, rec, rng, reps):
                           {"origin_kind": okind, "rebuilt": _show(got), "fresh": _show(exp)})
 
 
+def failed_step_then_own_loop(M, rec, rng, g, reps):
+    """Scripted in every run: a `Network.step` that raises while the links are being stepped (a wrongly sized array for the last
+    link); the caller catches it and goes on with its own per-element loop from other values - which gives what that loop gives
+    on a network that never saw the failing step."""
+    NE, CE = drive.engines(M)
+    sh = W.shapes_cycle()
+    for it in range(reps):
+        desc = g.all_kinds_network() if it % 3 == 0 else g.network(next(sh))[1]
+        if len(desc["links"]) < 2:
+            continue
+        ops = D.random_ops(desc, rng)
+        pars = g.pars()
+        kw = drive.step_pars(pars)
+        _, v_bad = g.values(desc, "interior", allow_inf=False)
+        _, v = g.values(desc, "interior", allow_inf=False)
+        via = rng.choice(("elements", "elements_links_first"))
+        try:
+            a = D.build(M, desc, ops)
+            ic = drive.np_init(a, v_bad, "vec1")
+            last = list(a.net.links)[-1][-1]
+            ic[last]["v"] = np.append(np.asarray(ic[last]["v"], dtype=float), 50.0)
+            try:
+                a.net.step(init_conditions=ic, engine=NE(), **kw)
+                rec.count("steps_expected_to_fail_that_did_not")
+                continue
+            except Exception:
+                rec.count("steps_failing_half_way")
+            drive.do_step(a.net, via, rng=rng, init_conditions=drive.np_init(a, v, "vec1"), engine=NE(), **kw)
+            got = drive.read_next(a)
+            b = D.build(M, desc, ops)
+            drive.do_step(b.net, via, rng=rng, init_conditions=drive.np_init(b, v, "vec1"), engine=NE(), **kw)
+            exp = drive.read_next(b)
+        except Exception as e:
+            rec.count("failed_step_history_raised")
+            rec.seen("failed_step_history_raised", repr(e)[:100])
+            continue
+        rec.count("own_loops_after_a_failed_network_step")
+        if not _bitwise(got, exp):
+            rec.violation(f"{PROP}:numpy: after a Network.step that failed half-way, the caller's own per-element loop does not give what it gives on objects that never saw the failing step",
+                          {"desc": desc, "after_the_failed_step": _show(got), "fresh": _show(exp)})
+
+
 def run(M, rec, tier, seed, k, n):
     np.seterr(all="ignore")
     rng = random.Random(seed * 1000 + k + 1200)
@@ -557,6 +599,7 @@ def run(M, rec, tier, seed, k, n):
     finite_difference_steps(M, rec, rng, g, 80 if tier == "quick" else 800)
     fill_engine_buffers_written_in_place(M, rec, rng, g, 30 if tier == "quick" else 300)
     rebuilt_networks(M, rec, rng, 30 if tier == "quick" else 300)
+    failed_step_then_own_loop(M, rec, rng, g, 24 if tier == "quick" else 240)
 
 
 def finish(M, rec, write=True):
